@@ -361,6 +361,10 @@ class WebSocketApp:
             self._callback(self.on_close, close_status_code, close_reason)
 
         def setSock(reconnecting: bool = False) -> None:
+            if reconnecting and not self.keep_running:
+                # close() was called while waiting for the reconnect interval
+                return
+
             if reconnecting and self.sock:
                 self.sock.shutdown()
 
